@@ -22,10 +22,10 @@ type WireCall struct {
 	Prog    uint32 `json:"prog"`
 	Vers    uint32 `json:"vers"`
 	Proc    uint32 `json:"proc"`
-	Target  int    `json:"target"`          // which handle: 0 root, 1 file, 2 dir, 3 symlink, 4 bogus handle, 5 stale
-	Seed    uint64 `json:"seed"`            // argument variation
+	Target  int    `json:"target"`           // which handle: 0 root, 1 file, 2 dir, 3 symlink, 4 bogus handle, 5 stale
+	Seed    uint64 `json:"seed"`             // argument variation
 	Mangle  string `json:"mangle,omitempty"` // "", trunc, garbage, badlen, extra
-	Cut     int    `json:"cut,omitempty"`   // truncation point (in 4-byte words)
+	Cut     int    `json:"cut,omitempty"`    // truncation point (in 4-byte words)
 	Flavor  uint32 `json:"flavor,omitempty"`
 	PauseUs int    `json:"pause_us,omitempty"`
 }
@@ -171,8 +171,8 @@ func handlesFor(w *World) ([][]byte, error) {
 		}
 		out = append(out, b)
 	}
-	out = append(out, []byte{0xde, 0xad, 0xbe, 0xef, 0, 0, 0, 1})           // never issued
-	out = append(out, []byte{0, 0, 0, 0, 0, 0, 0x30, 0x39})                   // never issued, small
+	out = append(out, []byte{0xde, 0xad, 0xbe, 0xef, 0, 0, 0, 1}) // never issued
+	out = append(out, []byte{0, 0, 0, 0, 0, 0, 0x30, 0x39})       // never issued, small
 	return out, nil
 }
 
@@ -799,14 +799,14 @@ func init() {
 	wireReal := append([]string{"UpdatePolicyOptions", "ValidateAuthentication", "accept-time IP filter", "rate limiting in the connection loop"}, seqReal...)
 	Register(&Prop{ID: "C14", Level: "exploration",
 		Rule: "one case = 1-3 clients each sending 3-12 calls drawn from all 22 NFSv3 and 6 MOUNT procedures (v1 and v3) with well-formed arguments against handles of a file, directory, symlink, root, a never-issued and a stale handle, or arguments truncated at a 4-byte boundary, replaced by garbage, with a length word overwritten by 2^31/2^32-1/limit+1, or with trailing words; unknown programs, versions, procedures and credential flavors; under a drawn initial policy (read-only, rate limiting with burst 1) and, in 60% of runs, a backend call stalled for 30 ms-6 s with a policy update issued on top of it (so arriving calls hit the drain window), random scheduler, optional stream segmentation; monitor on every reply: strict RFC 1831 reply decode, XID echo, and strict decode of the result as the RFC 1813 / MOUNT result type of its procedure and status (nfsstat3 / mountstat3 membership, exact consumption); the same monitor runs in every other server-level check; non-trivial = every run (at least one reply decoded); distinct by event digest",
-		Gen: genC14, New: func() any { return &WireScn{} }, Run: runWire, Shrink: shrinkWire, Real: wireReal, Stubbed: seqStubbed})
+		Gen:  genC14, New: func() any { return &WireScn{} }, Run: runWire, Shrink: shrinkWire, Real: wireReal, Stubbed: seqStubbed})
 	Register(&Prop{ID: "C15", Level: "exploration",
 		Rule: "one case = 1-3 hostile connections each performing 2-7 actions from {valid call, two calls back to back, call split into up to 60 fragments incl. empty ones, two messages in one record, single bit flip, random bytes, fragment header declaring 2^31-1 bytes, credential length 2^32-1, truncated record followed by close} plus one well-behaved probe connection, all interleaved by the random scheduler with arbitrary transport segmentation; oracle: no panic escapes any goroutine; every well-formed call is answered once, in order, with its XID (also on the probe connection afterwards); after an undecodable stream the server closes the connection within its read timeout (75 simulated s); runtime TotalAlloc growth while the server digests a hostile message stays below 8 MiB; replies that do come decode strictly; non-trivial = every run; distinct by event digest",
-		Gen: genC15, New: func() any { return &WireScn{} }, Run: runWire, Shrink: shrinkWire, Real: wireReal, Stubbed: seqStubbed})
+		Gen:  genC15, New: func() any { return &WireScn{} }, Run: runWire, Shrink: shrinkWire, Real: wireReal, Stubbed: seqStubbed})
 	Register(&Prop{ID: "C09", Level: "exploration",
 		Rule: "one case = one client from one of 9 peer addresses (IPv4, IPv6, IPv4-mapped, loopback; ports either side of 1024) sending 3-10 well-formed calls of any program/procedure to a server whose AllowedIPs is one of 14 lists (single addresses, CIDRs of prefix length 0,1,8,24,30,31,32,33(malformed), IPv6, IPv4-mapped, malformed entries) with Secure on/off, optionally switched to another such policy at runtime on the live connection; oracle: independent membership function (bit arithmetic over the normalised address); a peer excluded by every policy possibly in force gets MSG_DENIED (or is disconnected at accept time) and causes no backend call; a peer admitted by every such policy is never denied; non-trivial = every run; distinct by event digest. The input space (addresses x lists) is sampled.",
-		Gen: genC09, New: func() any { return &WireScn{} }, Run: runWire, Shrink: shrinkWire, Real: wireReal, Stubbed: seqStubbed})
+		Gen:  genC09, New: func() any { return &WireScn{} }, Run: runWire, Shrink: shrinkWire, Real: wireReal, Stubbed: seqStubbed})
 	Register(&Prop{ID: "C08", Level: "exploration",
 		Rule: "one case = 1-3 clients sending 4-13 calls biased to the 11 mutating procedures (well-formed, truncated, garbage and oversize arguments, arbitrary credentials) while an admin toggles ReadOnly 1-3 times at drawn instants, with a backend call stalled so that the switch lands inside a request, every interleaving decided by the random scheduler; monitors: no modifying backend call (write-mode open, write, truncate, create, remove, rename, mkdir, symlink, chmod, chown, chtimes) BEGINS while the read-only policy is certainly in force (from the return of update(ReadOnly=true) to the call of the next update); every mutating procedure sent and answered inside such an interval fails; ACCESS grants none of MODIFY/EXTEND/DELETE there; also evaluated for read-only set at construction; non-trivial = every run; distinct by event digest",
-		Gen: genC08, New: func() any { return &WireScn{} }, Run: runWire, Shrink: shrinkWire, Real: wireReal, Stubbed: seqStubbed})
+		Gen:  genC08, New: func() any { return &WireScn{} }, Run: runWire, Shrink: shrinkWire, Real: wireReal, Stubbed: seqStubbed})
 }
